@@ -117,13 +117,21 @@ func (b *echoBackend) handle(w http.ResponseWriter, r *http.Request) {
 	if lat := pathParam(path, "l"); lat > 0 {
 		time.Sleep(time.Duration(lat) * time.Millisecond)
 	}
-	w.Header().Set("Trailer", "X-Trailer-Token")
+	// trailer mode of the response (path segment m<k>): 0 declared, 1 undeclared (http.TrailerPrefix), 2 none
+	tmode := pathParam(path, "m")
+	if tmode == 0 {
+		w.Header().Set("Trailer", "X-Trailer-Token")
+	}
 	w.Header().Set("X-Token", tok)
 	w.Header().Add("X-Token-Multi", tok)
 	w.Header().Add("X-Token-Multi", tok+"+2")
 	w.Header().Set("Content-Type", "application/octet-stream")
 	hx.Emit("BackendReply", "tok", tok)
 	w.WriteHeader(200)
+	if tmode == 1 {
+		// an undeclared trailer needs a chunked response: flushing the header settles that
+		w.(http.Flusher).Flush()
+	}
 	resp := pattern(tok+"resp", pathParam(path, "b"))
 	// write in a few pieces so that the response streams
 	for len(resp) > 0 {
@@ -134,7 +142,12 @@ func (b *echoBackend) handle(w http.ResponseWriter, r *http.Request) {
 		w.Write(resp[:n])
 		resp = resp[n:]
 	}
-	w.Header().Set("X-Trailer-Token", tok)
+	switch tmode {
+	case 0:
+		w.Header().Set("X-Trailer-Token", tok)
+	case 1:
+		w.Header().Set(http.TrailerPrefix+"X-Trailer-Token", tok)
+	}
 }
 
 // relayClient performs one client request through the proxy and reports what came back.
@@ -177,7 +190,12 @@ func relayClient(proxyAddr, path string, timeout time.Duration) (kind, tok strin
 		}
 		return "mixed-body", t
 	}
-	if resp.Trailer.Get("X-Trailer-Token") != t {
+	// trailers: exactly the one the backend produced for this request (none in trailer mode 2)
+	wantTrailers := 1
+	if pathParam(t, "m") == 2 {
+		wantTrailers = 0
+	}
+	if len(resp.Trailer) != wantTrailers || (wantTrailers == 1 && resp.Trailer.Get("X-Trailer-Token") != t) {
 		return "mixed-trailer", t
 	}
 	return "ok", t
@@ -263,7 +281,7 @@ func relayPath(rng *rand.Rand, n int, sizes []int) string {
 			q = 200000
 		}
 	}
-	return fmt.Sprintf("/t/x%08x%04d/b%d/l%d/q%d", rng.Uint32(), n, b, rng.Intn(25), q)
+	return fmt.Sprintf("/t/x%08x%04d/b%d/l%d/q%d/m%d", rng.Uint32(), n, b, rng.Intn(25), q, rng.Intn(3))
 }
 
 // relayDriver: bursts of concurrent clients through the real proxy and agent binaries.
